@@ -101,6 +101,10 @@ def run_pool(max_size, progs, plan, opcodes=False, pooled=False, yield_points=Fa
                                 o.get(b"k")
                             finally:
                                 pool.destroy(o)
+                    elif a == 5:
+                        # the pool used directly, with the default destroy_on_fail=False: a failing body gives the object back
+                        with pool.get_and_release() as o:
+                            o.get(b"boom")
                     elif pooled:
                         pc.get({1: b"boom", 4: b"stop"}.get(a, b"k"))
                     else:
@@ -142,7 +146,8 @@ def model_outcomes(ctx, max_size, progs, memo={}):
     key = (max_size, repr(progs))
     if key not in memo:
         # quit (3) = use, then destroy; interrupted use (4): for the pool exactly what use-and-fail (1) does
-        r = ctx.driver.call(1, max_size, [[1 if a in (3, 4) else a for a in p] for p in progs], 80)
+        # use-and-fail under destroy_on_fail=False (5): the object goes back to the pool, as after a successful use (0)
+        r = ctx.driver.call(1, max_size, [[1 if a in (3, 4) else 0 if a == 5 else a for a in p] for p in progs], 80)
         if r[0] != "ok":
             raise RuntimeError("model error %r" % (r,))
         memo[key] = {(tuple(f), tuple(sorted(c)), tuple(e), n, tuple(u)) for f, c, e, n, u in r[1]}
@@ -151,7 +156,11 @@ def model_outcomes(ctx, max_size, progs, memo={}):
 
 SCENARIOS = [(1, [[0], [0]]), (1, [[0], [1]]), (1, [[1], [1]]), (2, [[0, 0], [0]]), (2, [[0], [1], [0]]), (1, [[0], [2]]), (2, [[1], [2]]), (2, [[0, 2], [0]]),
              (1, [[0, 0], [0, 1]]), (2, [[0], [0], [0]]), (2, [[1, 0], [2, 0]]), (3, [[0], [0], [1]]), (1, [[0, 1, 0], [2]]), (2, [[0, 0, 0], [1, 1]]),
-             (1, [[3], [0]]), (2, [[3, 0], [0]]), (2, [[0], [3], [0]]), (1, [[4], [0]]), (2, [[4, 0], [0]]), (2, [[0], [4], [1]])]
+             (1, [[3], [0]]), (2, [[3, 0], [0]]), (2, [[0], [3], [0]]), (1, [[4], [0]]), (2, [[4, 0], [0]]), (2, [[0], [4], [1]]),
+             (1, [[5], [0]]), (2, [[5, 0], [0]]), (2, [[5], [0], [0]]), (2, [[5, 5], [1]])]
+
+
+EXHAUSTIVE_PAIRS = [(2, [[5, 0], [0]])]
 
 
 def plans_for(n, bound, rng, limit):
@@ -181,12 +190,16 @@ def explore(ctx, check):
     n = 0
     for max_size, progs in SCENARIOS:
         for pooled in (False, True):
+            if pooled and any(5 in p for p in progs):
+                continue            # PooledClient always asks for destroy_on_fail=True
             for opcodes in (False, True):
                 if opcodes and (pooled or len(progs) > 2) and ctx.quick:
                     continue
                 base = run_pool(max_size, progs, (), opcodes, pooled)
                 steps = base[3]
                 limit = (40 if ctx.quick else 600) if not opcodes else (0 if ctx.quick else 200)
+                if (max_size, progs) in EXHAUSTIVE_PAIRS and not opcodes and not pooled:
+                    limit = 10 ** 9         # every pair of preemption points (the double hand-out needs two well-placed ones)
                 bound = 2 if (not opcodes or not ctx.quick) else 1
                 plans = plans_for(steps + 2, bound if limit else 1, rng, limit)
                 if opcodes and ctx.quick:
